@@ -209,7 +209,7 @@ def check_c11(tier, seed, only=None):
     v = lib.Verdict('C11', tier, seed)
     demos = lib.ensure_demos('rel')
     rec = Recorder('c11')
-    nfiles = 36 if tier == 'quick' else 700
+    nfiles = 45 if tier == 'quick' else 720
     ranks_all = [1, 2, 3, 4, 8]
     tmp = tempfile.mkdtemp(prefix='c11-', dir=lib.tree_dir())
     timeout = 60 if tier == 'quick' else 120
@@ -219,8 +219,12 @@ def check_c11(tier, seed, only=None):
         n, edges = dimacs_gen.gen_valid(rng, max_n=22 if tier == 'quick' else 36)
         path = os.path.join(tmp, 'g%d.dimacs' % i)
         ranks = rng.sample(ranks_all, 2 if tier == 'quick' else 3)
+        if max(ranks) < 2:
+            ranks[0] = rng.choice([2, 3, 4])
         if i % 3 == 2:
-            n2, toks, kinds = dimacs_gen.make_invalid(rng, n, edges)
+            # every second invalid file violates exactly one precondition (each kind in turn), the others a random combination
+            j = i // 3
+            n2, toks, kinds = dimacs_gen.make_invalid(rng, n, edges, only=(j // 2) % 3 if j % 2 == 0 else None)
             dimacs_gen.write_dimacs(path, n2, toks, rng, trailing_newline=rng.random() < 0.8)
             check_invalid_file(rec, demos, rng, i, path, kinds, tier, timeout, ranks)
             rec.case('inv-%d-%d' % (seed, i), True, ['invalid:' + '+'.join(kinds)], dict(kind='invalid', violations=kinds, file_head=open(path).read()[:200]))
